@@ -90,11 +90,13 @@ func (w *Writer) Rotate(fs storage.FileSystem) *Writer {
 	nextLog.maxSize = w.maxSize
 	nextLog.latestSeqNum = w.latestSeqNum
 
-	// Include all data from previous buffers
+	// Include all data from previous buffers. The segments keep their latest
+	// sequence numbers so that a later Truncate only drops the ones whose entries
+	// made it into sstables.
 	for i, b := range w.sealedBuffers {
-		nextLog.sealedBuffers[i] = &bufferSegment{buf: b.buf}
+		nextLog.sealedBuffers[i] = &bufferSegment{buf: b.buf, latestSeqNum: b.latestSeqNum}
 	}
-	nextLog.sealedBuffers[len(w.sealedBuffers)] = &bufferSegment{buf: w.activeBuffer.buf}
+	nextLog.sealedBuffers[len(w.sealedBuffers)] = &bufferSegment{buf: w.activeBuffer.buf, latestSeqNum: w.latestSeqNum}
 
 	// And initialize a new active buffer
 	nextLog.activeBuffer = &bufferSegment{}
